@@ -202,6 +202,7 @@ def run(tier, replay_file=None):
     stamping(chk, ex)
     request_ids(chk, ex)
     error_body_serialization(chk, ex)
+    id_generator(chk, ex)
     status_types(chk, ex)
     kani_status_types(chk)
     witnesses(chk)
@@ -250,6 +251,104 @@ def stamping(chk, ex):
                 g.run(eps, 'unversioned', mode, rfn, check, 'stamping')
     finally:
         ex.models = saved_models
+
+
+def id_generator(chk, ex):
+    """server.rs::generate_request_id from MIR, called twice with arbitrarily many other draws in between: the two ids differ.
+    Uuid::new_v4 returns pairwise distinct values (the UUID contract); process-global state the generator may keep (a OnceLock, an
+    atomic counter) starts at an arbitrary value and moves on by an arbitrary amount between the two calls."""
+    f = ex.fns
+    F_gen = mir.find(f, r'(^|::)generate_request_id$')
+    class S: draws = 0; once = {}; atomics = {}; phase = 0
+    c0, gap = z3.BitVec('counter_before_first_request', 64), z3.BitVec('draws_in_between', 64)
+    def m_new_v4(ex, a, c):
+        k = S.draws; S.draws += 1
+        return Opaque('uuid', ('v4', k))
+    def fields_of(u):
+        if u.payload[0] == 'v4':
+            k = u.payload[1]
+            return (z3.BitVec(f'uuid{k}_d1', 32), z3.BitVec(f'uuid{k}_d2', 16), z3.BitVec(f'uuid{k}_d3', 16), Opaque('uuid-d4', k))
+        return u.payload[1:]
+    def m_once(ex, a, c):
+        key = str(dv(a[0]))
+        if key not in S.once: S.once[key] = Cell(ex.call_closure(a[1], []) if not isinstance(dv(a[1]), Opaque) else m_new_v4(ex, [], ''))
+        return Ref(S.once[key])
+    def m_fetch_add(ex, a, c):
+        key = str(dv(a[0]))
+        cur = S.atomics.get(key, c0 if S.phase == 0 else None)
+        if cur is None: cur = c0
+        S.atomics[key] = cur + (dv(a[1]) if z3.is_expr(dv(a[1])) else z3.BitVecVal(dv(a[1]), 64))
+        return cur
+    def m_format(ex, a, c):
+        # the text of a uuid is injective in the uuid
+        from mirsym.models import render_fmt
+        args_ = dv(a[0])
+        us = []
+        def walk(x, depth=0):
+            x = dv(x)
+            if isinstance(x, Opaque) and x.tag == 'uuid': us.append(x)
+            elif isinstance(x, Opaque) and x.tag == 'fmtarg': walk(x.payload[1], depth + 1)
+            elif isinstance(x, Opaque) and x.tag == 'fmtargs':
+                for y in x.payload: walk(y, depth + 1)
+            elif isinstance(x, (Adt,)) and depth < 6:
+                for fl in x.fields.values():
+                    for cell in (fl if isinstance(fl, list) else []): walk(cell.v, depth + 1)
+            elif hasattr(x, 'items') and depth < 6:
+                for cell in x.items: walk(cell.v if isinstance(cell, Cell) else cell, depth + 1)
+            elif isinstance(x, Ref) and depth < 6: walk(x.cell.v, depth + 1)
+        walk(args_)
+        if len(us) == 1: return Opaque('text-of-uuid', us[0])
+        r = render_fmt(ex, a[0])
+        if r is None: raise Unsupported('format! of something that is not a single uuid')
+        return r
+    local = [(r'(^|::)new_v4$', m_new_v4), (r'OnceLock::<.*>::get_or_init::<', m_once), (r'^Atomic::<u64>::fetch_add$|AtomicU64::fetch_add$', m_fetch_add),
+             (r'^Uuid::as_fields$|<impl Uuid>::as_fields$', lambda ex, a, c: Tup([Cell(x) for x in fields_of(dv(a[0]))])),
+             (r'<impl Uuid>::from_fields$|^Uuid::from_fields$', lambda ex, a, c: Opaque('uuid', ('fields', dv(a[0]), dv(a[1]), dv(a[2]), dv(a[3])))),
+             (r'^std::fmt::format$|^alloc::fmt::format$', m_format, True), (r'^must_use::<', lambda ex, a, c: a[0])]
+    saved = ex.models
+    ex.models = local + ex.models
+    try:
+        def h(ex):
+            S.draws, S.once, S.atomics, S.phase = 0, {}, {}, 0
+            id1 = ex.call_fn(F_gen, [])
+            # other requests are served in between: fresh uuids are drawn, counters move on
+            S.draws += 1000
+            for k_ in list(S.atomics): S.atomics[k_] = S.atomics[k_] + gap
+            S.phase = 1
+            id2 = ex.call_fn(F_gen, [])
+            return dv(id1), dv(id2)
+        assume = [z3.BVAddNoOverflow(c0, gap + 2, False), z3.BVAddNoOverflow(gap, z3.BitVecVal(2, 64), False)]
+        outs = ex.explore(h, assume)
+        chk.paths += len(outs)
+        if not outs: raise Inconclusive(f'vacuity: generate_request_id has no path; {ex.unsupported_paths[-2:]}')
+        for pc, (k, r) in outs:
+            if k != 'ok':
+                m = chk.prove('id-generator/no-panic', pc, z3.BoolVal(True), extra=assume)
+                if m is not None: chk.mismatches.append(f'generate_request_id panics: {r}')
+                continue
+            a, b_ = r
+            def same_uuid(u, v):
+                if not (isinstance(u, Opaque) and isinstance(v, Opaque) and u.tag == v.tag == 'uuid'): return z3.BoolVal(u is v)
+                if u.payload[0] == 'v4' and v.payload[0] == 'v4': return z3.BoolVal(u.payload[1] == v.payload[1])
+                if u.payload[0] != v.payload[0]: return z3.BoolVal(False)          # a drawn and a composed uuid: not comparable, treated as different draws
+                conds = []
+                for x, y in zip(u.payload[1:], v.payload[1:]):
+                    if z3.is_expr(x) and z3.is_expr(y): conds.append(x == y)
+                    else: conds.append(z3.BoolVal((x.payload == y.payload) if isinstance(x, Opaque) and isinstance(y, Opaque) else x is y))
+                return z3.And(conds)
+            ua = a.payload if isinstance(a, Opaque) and a.tag == 'text-of-uuid' else a
+            ub = b_.payload if isinstance(b_, Opaque) and b_.tag == 'text-of-uuid' else b_
+            m = chk.prove('id-generator/two-requests-any-distance-apart-get-different-ids', pc, same_uuid(ua, ub), extra=assume, prefer=[z3.ULE(gap, 1 << 20)])
+            if m is not None:
+                g_ = m.eval(gap, model_completion=True).as_long() + 1
+                if g_ > 200000:
+                    chk.mismatches.append(f'request ids repeat at a distance of {g_} requests (too far to replay)'); continue
+                case = {'op': 'request_id_many', 'n': g_ + 400}
+                nat = replay([case])[0]
+                chk.counterexample(f'generate_request_id returns the same id for two requests {g_} draws apart ({ua} / {ub}); {case["n"]} requests on a real server -> {nat}', case,
+                                   not nat.get('all_distinct', False), role='id-generator')
+    finally:
+        ex.models = saved
 
 
 def error_body_serialization(chk, ex):
